@@ -559,13 +559,27 @@ func (fc *FnCtx) mergeStates(sts []*State) *State {
 		}
 		return res, true
 	}
-	// vars present in all states
-	for obj, v := range base.vars {
-		t, ok := pick(func(s *State) (string, bool) { x, ok := s.vars[obj]; return x.T, ok })
-		if !ok {
-			delete(m.vars, obj)
-			continue
+	// variables: a variable that is live in only some of the joined states (a local of an inner scope) keeps its value
+	// on those paths and is arbitrary on the others (postconditions may name it)
+	allVars := map[types.Object]Val{}
+	for _, s := range sts {
+		for obj, v := range s.vars {
+			if _, ok := allVars[obj]; !ok {
+				allVars[obj] = v
+			}
 		}
+	}
+	for obj, v := range allVars {
+		dead := ""
+		t, _ := pick(func(s *State) (string, bool) {
+			if x, ok := s.vars[obj]; ok {
+				return x.T, true
+			}
+			if dead == "" {
+				dead = fc.smt.fresh("dead_"+sanitize(obj.Name()), fc.smt.sortOf(v.Ty))
+			}
+			return dead, true
+		})
 		m.vars[obj] = Val{fc.nameIfBig(m, t, fc.smt.sortOf(v.Ty), "m_"+obj.Name()), v.Ty}
 	}
 	keys := map[string]bool{}
